@@ -28,6 +28,8 @@ EXPLANATION = (
 
 
 def run(ctx: Ctx) -> None:
+    from ..rules import order as _order_seq
+    _order_seq.rule_sequence_source(ctx, [("graphiq/circuit/circuit_dag.py", "CircuitDAG._slim_seq")])  # the noisy copy (assign_noise) replays the operations in application order
     from .c09 import rule_lc_check_inversion, rule_sign_repair
     rule_lc_check_inversion(ctx)   # solve() appends lc_check's gates to the circuit of the LC graph
     rule_sign_repair(ctx)
